@@ -74,8 +74,146 @@ fn sec_policy(s: &str) -> Option<SecurityPolicy> {
         "basic256sha256" => SecurityPolicy::Basic256Sha256,
         "aes128sha256rsaoaep" => SecurityPolicy::Aes128Sha256RsaOaep,
         "aes256sha256rsapss" => SecurityPolicy::Aes256Sha256RsaPss,
+        "unknown" => SecurityPolicy::Unknown,
         _ => return None,
     })
+}
+
+fn alg_uri(a: &str) -> Option<UAString> {
+    Some(match a {
+        "-" => UAString::null(),
+        "rsa15" => UAString::from("http://www.w3.org/2001/04/xmlenc#rsa-1_5"),
+        "rsaoaep" => UAString::from("http://www.w3.org/2001/04/xmlenc#rsa-oaep"),
+        "rsaoaep256" => UAString::from("http://opcfoundation.org/UA/security/rsa-oaep-sha2-256"),
+        "other" => UAString::from("http://example.org/unknown-algorithm"),
+        _ => return None,
+    })
+}
+
+fn alg_padding(a: &str) -> Option<&'static str> {
+    match a {
+        "rsa15" => Some("pkcs1"),
+        "rsaoaep" => Some("oaep"),
+        "rsaoaep256" => Some("oaep256"),
+        _ => None,
+    }
+}
+
+/// byte strings at every boundary of UTF-8 well-formedness (Unicode Table 3-7)
+const UTF8_BOUNDARIES: [&[u8]; 34] = [
+    &[0x00], &[0x7f], &[0x80], &[0xbf], &[0xc0, 0x80], &[0xc1, 0xbf], &[0xc2, 0x80], &[0xdf, 0xbf], &[0xc2, 0x7f], &[0xc2, 0xc0], &[0xc2],
+    &[0xe0, 0x9f, 0xbf], &[0xe0, 0xa0, 0x80], &[0xe0, 0xbf, 0xbf], &[0xe1, 0x80, 0x80], &[0xe1, 0x80, 0x7f], &[0xe1, 0x80], &[0xe1],
+    &[0xed, 0x9f, 0xbf], &[0xed, 0xa0, 0x80], &[0xee, 0x80, 0x80], &[0xef, 0xbf, 0xbf], &[0xec, 0xc0, 0x80],
+    &[0xf0, 0x8f, 0xbf, 0xbf], &[0xf0, 0x90, 0x80, 0x80], &[0xf1, 0x80, 0x80, 0x80], &[0xf3, 0xbf, 0xbf, 0xbf], &[0xf4, 0x8f, 0xbf, 0xbf],
+    &[0xf4, 0x90, 0x80, 0x80], &[0xf5, 0x80, 0x80, 0x80], &[0xff], &[0xf1, 0x80, 0x80], &[0xf1, 0x80, 0x80, 0x7f], &[0xf1, 0x80, 0xc0, 0x80],
+];
+
+fn framed(body: &[u8]) -> Vec<u8> {
+    let mut p = le32(body.len() as u32);
+    p.extend_from_slice(body);
+    p
+}
+
+/// Deterministic small-scope enumeration: every branch and boundary of the framing / block logic for
+/// every padding and key size, every row of the token policy table, every algorithm label.
+fn systematic(out: &mut Vec<String>) {
+    let n8: Vec<u8> = (1..=8u8).collect();
+    for (bi, bits) in [1024usize, 2048, 4096].iter().enumerate() {
+        for pad in ["pkcs1", "oaep", "oaep256"] {
+            let ks = bits / 8;
+            let b = ks - overhead(pad);
+            out.push(format!("reset {} {}", bits, pad));
+            // block boundaries of the plaintext (4 + |pw| + |nonce| = b-1, b, b+1, 2b-1, 2b, 2b+1, 3b)
+            for total in [b - 1, b, b + 1, 2 * b - 1, 2 * b, 2 * b + 1, 3 * b] {
+                if *bits == 4096 && total > 2 * b {
+                    continue;
+                }
+                let pw = "a".repeat(total - 4 - n8.len());
+                out.push(format!("rt s{} x{} x{}", hex(pw.as_bytes()), hex(&n8), hex(&n8)));
+            }
+            // nonce relations
+            let pw = b"pw";
+            out.push(format!("rt s{} x{} x{}", hex(pw), hex(&n8), hex(&[1, 2, 3, 4, 5, 6, 7, 9])));
+            out.push(format!("rt s{} x{} x{}", hex(pw), hex(&n8), hex(&n8[4..])));
+            out.push(format!("rt s{} x{} x", hex(pw), hex(&n8)));
+            out.push(format!("rt s{} x{} x{}", hex(pw), hex(&n8), hex(&[b'w', 1, 2, 3, 4, 5, 6, 7, 8])));
+            out.push(format!("rt s{} x{} x{}", hex(pw), hex(&n8), hex(&[0, 0, b'p', b'w', 1, 2, 3, 4, 5, 6, 7, 8])));
+            out.push(format!("rt s{} x{} x{}", hex(pw), hex(&n8), hex(&[9u8; 20])));
+            out.push(format!("rt s{} x{} x{}", hex(pw), hex(&n8), hex(&[9u8; 3])));
+            out.push(format!("rt s x x"));
+            out.push(format!("rt s x{} x{}", hex(&n8), hex(&n8)));
+            out.push(format!("reset {} {}", bits, pad));
+            // framing: declared size vs actual size, nonce length vs declared size
+            let body: Vec<u8> = [b"pass".as_ref(), &n8].concat();
+            for delta in [-5i64, -1, 1, 5] {
+                let mut p = le32((body.len() as i64 + delta) as u32);
+                p.extend_from_slice(&body);
+                out.push(format!("craft x{} x{}", hex(&p), hex(&n8)));
+            }
+            for l in 0..=5usize {
+                out.push(format!("craft x{} x", hex(&vec![0u8; l])));
+            }
+            out.push(format!("craft x{} x{}", hex(&framed(&n8)), hex(&n8))); // nonce = whole body
+            let n9: Vec<u8> = [&[0u8][..], &n8].concat();
+            out.push(format!("craft x{} x{}", hex(&framed(&n8)), hex(&n9))); // one longer
+            out.push(format!("craft x{} x{}", hex(&framed(&n8)), hex(&[7u8; 30])));
+            out.push(format!("craft x{} x", hex(&framed(&[]))));
+            out.push(format!("craft x{} x{}", hex(&framed(&[])), hex(&[0u8]))); // overlaps the prefix
+            out.push(format!("craft x{} x{}", hex(&framed(&[7, 8])), hex(&[0, 0, 7, 8])));
+            // raw: block counts and lengths around the key size
+            out.push(format!("reset {} {}", bits, pad));
+            for l in [0usize, 1, ks - 1, ks, ks + 1, 2 * ks, 2 * ks + 1, 3 * ks] {
+                out.push(format!("raw x{} x{}", hex(&vec![0x5au8; l]), hex(&n8)));
+            }
+            out.push(format!("raw - x{}", hex(&n8)));
+            for kind in ["trunc", "extend", "flip", "dropblock", "dupblock", "swap"] {
+                let pw = "b".repeat(b + 10); // two blocks
+                out.push(format!("mut {} 5 s{} x{}", kind, hex(pw.as_bytes()), hex(&n8)));
+            }
+            if bi == 0 && pad == "pkcs1" {
+                // UTF-8 boundaries, as the password of a well-formed plaintext and as a plain-text token
+                out.push(format!("reset {} {}", bits, pad));
+                for u in UTF8_BOUNDARIES {
+                    for (pre, post) in [(&b""[..], &b""[..]), (&b"a"[..], &b"z"[..])] {
+                        let body: Vec<u8> = [pre, u, post, &n8].concat();
+                        out.push(format!("craft x{} x{}", hex(&framed(&body)), hex(&n8)));
+                        let field: Vec<u8> = [pre, u, post].concat();
+                        out.push(format!("dtok - plain x{} x", hex(&field)));
+                    }
+                }
+            }
+        }
+    }
+    // the token layer: every channel policy × every user token policy
+    let pols = ["none", "basic128rsa15", "basic256", "basic256sha256", "aes128sha256rsaoaep", "aes256sha256rsapss"];
+    out.push("reset 2048 oaep".to_string());
+    for chan in pols {
+        for tp in ["-", "none", "basic128rsa15", "basic256", "basic256sha256", "aes128sha256rsaoaep", "aes256sha256rsapss", "bogus"] {
+            out.push(format!("tok {} {} s70c3a4737377c3b67264 x{}", chan, tp, hex(&n8)));
+        }
+    }
+    // the server side on its own: every algorithm label × how the password was really encrypted
+    for bits in [1024, 2048] {
+        out.push(format!("reset {} oaep", bits));
+        for alg in ["rsa15", "rsaoaep", "rsaoaep256", "other"] {
+            for epad in ["pkcs1", "oaep", "oaep256"] {
+                out.push(format!("dtok {} enc {} s70617373 x{}", alg, epad, hex(&n8)));
+            }
+            out.push(format!("dtok {} plain - x{}", alg, hex(&n8)));
+            out.push(format!("dtok {} plain x x{}", alg, hex(&n8)));
+            out.push(format!("dtok {} plain x{} x{}", alg, hex(&vec![0x11u8; bits / 8]), hex(&n8)));
+            out.push(format!("dtok {} plain x{} x{}", alg, hex(&vec![0x11u8; bits / 8 - 1]), hex(&n8)));
+        }
+        out.push("dtok - plain - x".to_string());
+        out.push("dtok - plain x x0102".to_string());
+        out.push("dtok - plain x70617373 x0102".to_string());
+        out.push("dtok - plain xff x0102".to_string());
+    }
+    // by-design panics (outside the property): signature padding, Unknown channel policy with an empty token policy
+    out.push("reset 2048 pss".to_string());
+    out.push("rt s70 x01 x01".to_string());
+    out.push("reset 2048 oaep".to_string());
+    out.push("tok unknown - s70 x01".to_string());
 }
 
 fn overhead(pad: &str) -> usize {
@@ -150,6 +288,7 @@ impl Prop for C16 {
     }
 
     fn gen(&self, rng: &mut Rng, n: usize, tier: Tier, out: &mut Vec<String>) {
+        systematic(out);
         for _ in 0..n {
             // 4096-bit keys are slow to generate and to use: rarer in the quick tier
             let bits = match rng.weighted(&if tier == Tier::Thorough { [3, 4, 3] } else { [5, 4, 1] }) {
@@ -531,6 +670,48 @@ impl Runner for R {
                 };
                 (res, v)
             }
+            ["dtok", alg, "plain", field, n] => {
+                let (Some(uri), Some(n)) = (alg_uri(alg), unhex(n)) else { return bad() };
+                let field = if *field == "-" { ByteString::null() } else {
+                    let Some(f) = unhex(field) else { return bad() };
+                    ByteString { value: Some(f) }
+                };
+                let flen = field.value.as_ref().map(|v| v.len()).unwrap_or(0);
+                let token = opcua::types::service_types::UserNameIdentityToken {
+                    policy_id: UAString::from("verif"),
+                    user_name: UAString::from("user"),
+                    password: field,
+                    encryption_algorithm: uri,
+                };
+                let k = key(self.bits).unwrap();
+                let dec = decrypt_user_identity_token_password(&token, &n, &k.pkey);
+                (show_dec(alg_padding(alg).is_none(), flen, &dec), Verdict::Ok)
+            }
+            ["dtok", alg, "enc", epad, pw, n] => {
+                let (Some(uri), Some(epadding), Some(pwb), Some(n)) = (alg_uri(alg), padding(epad), unhex(&pw[1..]), unhex(n)) else { return bad() };
+                let Ok(pw) = String::from_utf8(pwb) else { return bad() };
+                let k = key(self.bits).unwrap();
+                let Ok(secret) = legacy_password_encrypt(&pw, &n, &k.cert, epadding) else {
+                    return ("err enc".to_string(), Verdict::fail("roundtrip", "dtok", "encryption failed"));
+                };
+                let clen = secret.value.as_ref().map(|v| v.len()).unwrap_or(0);
+                let token = opcua::types::service_types::UserNameIdentityToken {
+                    policy_id: UAString::from("verif"),
+                    user_name: UAString::from("user"),
+                    password: secret,
+                    encryption_algorithm: uri,
+                };
+                let dec = decrypt_user_identity_token_password(&token, &n, &k.pkey);
+                let matches = alg_padding(alg) == Some(*epad);
+                // the label names the padding really used ⇒ the password comes back; any other label ⇒ an error
+                let v = match (&dec, matches) {
+                    (Ok(p), true) if *p == pw => Verdict::Ok,
+                    (_, true) => Verdict::fail("token_roundtrip", "dtok-match", "correctly labelled token was not read back"),
+                    (Ok(_), false) => Verdict::fail("token_label", "dtok-mismatch", "a token labelled with another algorithm decrypted"),
+                    (Err(_), false) => Verdict::Ok,
+                };
+                (show_dec(matches || *alg == "other", clen, &dec), v)
+            }
             ["mut", kind, p, pw, n] => {
                 let (Ok(p), Some(pwb), Some(n)) = (p.parse::<usize>(), unhex(&pw[1..]), unhex(n)) else { return bad() };
                 let Ok(pw) = String::from_utf8(pwb) else { return bad() };
@@ -550,6 +731,12 @@ impl Runner for R {
 
     /// "decrypting any byte string returns an error rather than panicking"
     fn on_panic(&self, toks: &[&str]) -> Verdict {
+        // by design and outside the property: the signature padding is not an encryption padding
+        // (`panic!("Unsupported padding")`); an Unknown channel policy with no token policy
+        // (`panic!("Don't know how to make the token for this server")`)
+        if self.pad == "pss" || matches!(toks, ["tok", "unknown", "-", ..]) {
+            return Verdict::Ok;
+        }
         let ks = (self.bits / 8) as usize;
         let class = match toks {
             ["raw", c, _] => {
